@@ -2242,6 +2242,9 @@ func c20HookResult(cfc *ssa.Function) string {
 				if !types.Identical(x.Val.Type(), types.Universe.Lookup("error").Type()) {
 					continue
 				}
+				if ld, ok := x.Val.(*ssa.UnOp); ok && ld.Op == token.MUL && ld.X == x.Addr {
+					continue // `return err` with a named result: the result stored back into itself
+				}
 				if x.Val != ssa.Value(call) && !(flow.IsNilConst(x.Val) && (underNil(b) || b == cfc.Blocks[0])) {
 					return "something other than the hook's result is stored into the error result"
 				}
